@@ -1,6 +1,7 @@
 """C18 — custom converter precedence and reach."""
 import itertools
 import enum
+import functools
 import typing as t
 
 from .. import env, drive
@@ -24,7 +25,7 @@ ASSUMPTIONS = ["own class-level custom= replaces (does not merge with) inherited
 ANCHORS = ['convert:make_converter', 'convert:ConverterHandlers.make', 'convert:ConverterHandlers._process', 'classes:PaneConverter.__init__',
            'classes:PaneBase.__init_subclass__', 'convert:from_data', 'convert:into_data']
 MIN_COUNTERS = {'quick': {'configurations': 6000, 'from_data_leaves': 6000, 'into_data_leaves': 4000, 'deferrals': 800,
-                          'exact_type_rule_checks': 300}}
+                          'exact_type_rule_checks': 300, 'writer_handler_checks': 1500, 'classes_built_with_handlers': 3000}}
 
 
 class Stamp:
@@ -56,6 +57,26 @@ class StampConv(env.Converter):
 
     def into_data(self, val):
         return ['out', self.source, val.v if isinstance(val, Stamp) else 'typed']
+
+
+class ScaleConv(env.Converter):
+    """ints are stored tenfold plus one: a handler applied twice, or not at all, shows in the number itself"""
+
+    def expected(self, plural=False):
+        return "scaled ints"
+
+    def try_convert(self, val):
+        if type(val) is int and val % 10 == 1:
+            return val // 10
+        raise env.ParseInterrupt()
+
+    def collect_errors(self, val):
+        if type(val) is int and val % 10 == 1:
+            return None
+        return env.m_errors.WrongTypeError(self.expected(), val)
+
+    def into_data(self, val):
+        return val * 10 + 1
 
 
 class HasConv:
@@ -111,6 +132,19 @@ def make_handlers(source, P, form, rng):
     def decline_exc(ty, args, *, handlers):
         raise NotImplementedError()
 
+    class Callable_:
+        def __call__(self, ty, args, *, handlers):
+            return conv if ty is P else NotImplemented
+
+        def method(self, ty, args, *, handlers):
+            return conv if ty is P else NotImplemented
+
+    def with_extra(extra, ty, args, *, handlers):
+        return conv if ty is P else NotImplemented
+
+    if form == 'callable-object': return Callable_(), True
+    if form == 'bound-method': return Callable_().method, True
+    if form == 'partial': return functools.partial(with_extra, 'x'), True
     if form == 'function': return serve, True
     if form == 'sequence': return [decline, serve], True
     if form == 'sequence-exc': return (decline_exc, serve), True
@@ -121,7 +155,7 @@ def make_handlers(source, P, form, rng):
     raise ValueError(form)
 
 
-SERVING = ('function', 'sequence', 'sequence-exc', 'mapping')
+SERVING = ('function', 'sequence', 'sequence-exc', 'mapping', 'callable-object', 'bound-method', 'partial')
 DECLINING = ('declines', 'declines-exc', 'mapping-other')
 SHAPES = ('direct', 'list', 'dictval', 'optional', 'tuple', 'union')
 
@@ -210,24 +244,31 @@ def run(ctx):
         FT = shape_type(P, shape)
         top = FT
         if depth >= 1:
-            base = None
-            if present['inherited']:
-                base = type(f"CB{next(_serial)}", (env.PaneBase,), {'__annotations__': {}, '__module__': __name__}, custom=customs['inherited'])
-            copts = {'custom': customs['own']} if present['own'] else {}
+            # every handler form the documentation lists is legal at class level as well: a class statement that
+            # refuses one is a violation, not a harness problem
             try:
+                base = None
+                if present['inherited']:
+                    base = type(f"CB{next(_serial)}", (env.PaneBase,), {'__annotations__': {}, '__module__': __name__}, custom=customs['inherited'])
+                copts = {'custom': customs['own']} if present['own'] else {}
                 generic = rng.choice((None, None, 'subscript', 'subclass'))
                 C = mk_class(f"C{next(_serial)}", FT, copts, base, StampConv('field') if present['field'] else None, generic)
                 if generic:
                     ctx.count('generic_field_classes')
-            except TypeError as e:
+                top = C
+                if depth >= 2:
+                    top = mk_class(f"O{next(_serial)}", rng.choice((C, t.List[C], t.Optional[C])), {'custom': customs['outer1']} if present['outer1'] else {})
+                    wrap1 = t.get_origin(top.__pane_info__.fields[0].type)
+                if depth >= 3:
+                    top = mk_class(f"OO{next(_serial)}", top, {'custom': customs['outer2']} if present['outer2'] else {})
+            except Exception as e:
                 ctx.count('class_build_failed')
+                used = sorted({forms[s] for s in ('own', 'inherited', 'outer1', 'outer2') if present[s]})
+                ctx.violation('precedence', 'main', i, {'probe': probe, 'shape': shape, 'depth': str(depth), 'forms': str(used),
+                                                        'observed': f"class statement with class-level custom= raised {type(e).__name__}: {str(e)[:200]}"},
+                              mech='class-level-custom-form-refused:' + ','.join(used))
                 return
-            top = C
-            if depth >= 2:
-                top = mk_class(f"O{next(_serial)}", rng.choice((C, t.List[C], t.Optional[C])), {'custom': customs['outer1']} if present['outer1'] else {})
-                wrap1 = t.get_origin(top.__pane_info__.fields[0].type)
-            if depth >= 3:
-                top = mk_class(f"OO{next(_serial)}", top, {'custom': customs['outer2']} if present['outer2'] else {})
+            ctx.count('classes_built_with_handlers')
         # data
         v = shape_data(DATA[probe], shape)
         data = v
@@ -421,6 +462,38 @@ def run(ctx):
                 return
 
     drive.for_each_case(ctx, 'output-reach', 40, body_output_reach, gen=lambda c, r: Ty('int'))
+
+    # the writer methods and functions with custom= apply the handlers ONCE: what they write is into_data(x, custom=) as text
+    def body_writers(i, rng, ty, T):
+        import io as _io
+        import json as _json
+        import yaml as _yaml
+        conv = rng.choice((StampConv('call'), ScaleConv(), ScaleConv()))
+        custom = rng.choice(({int: conv}, lambda ty, args, *, handlers: conv if ty is int else NotImplemented))
+        Holder = type(f"KW{next(_serial)}", (env.PaneBase,), {'__annotations__': {'n': int, 'items': t.List[int], 'name': str}, 'items': env.pfield(default_factory=list),
+                                                               'name': 'nm', '__module__': __name__})
+        x = Holder(5, [1, 2])
+        want = observe(env.into_data, x, Holder, custom=custom)
+        if want.kind != 'value':
+            return
+        def to_stream(f, **kw):
+            s_ = _io.StringIO()
+            f(s_, **kw)
+            return s_.getvalue()
+        ways = [('x.write_json(custom=)', lambda: _json.loads(x.write_json(custom=custom))), ('x.write_json(stream, custom=)', lambda: _json.loads(to_stream(x.write_json, custom=custom))),
+                ('x.write_yaml(custom=)', lambda: _yaml.safe_load(x.write_yaml(custom=custom))), ('x.write_yaml(stream, custom=)', lambda: _yaml.safe_load(to_stream(x.write_yaml, custom=custom))),
+                ('io.write_json(x, stream, ty=, custom=)', lambda: _json.loads(to_stream(lambda s_, **kw: env.m_io.write_json(x, s_, ty=Holder, **kw), custom=custom))),
+                ('io.write_yaml(x, stream, custom=)', lambda: _yaml.safe_load(to_stream(lambda s_, **kw: env.m_io.write_yaml(x, s_, **kw), custom=custom))),
+                ('x.into_data(custom=)', lambda: x.into_data(custom=custom))]
+        for label, thunk in ways:
+            got = observe(thunk)
+            ctx.count('writer_handler_checks')
+            ctx.case(('writers', label[:24], got.kind), nontrivial=True)
+            if got.kind != 'value' or got.val != want.val:
+                ctx.violation('precedence', 'writers', i, {'writer': label, 'written': got.brief(), 'into_data(x, Cls, custom=)': want.brief()}, mech='writer:handlers-not-applied-exactly-once')
+                return
+
+    drive.for_each_case(ctx, 'writers', 30, body_writers, gen=lambda c, r: Ty('int'))
 
     # the mapping form matches only the exact unparameterised type
     def body_exact(i, rng, ty, T):
